@@ -55,8 +55,15 @@ func VerifHarness_C09_GenMethods() {
 
 func VerifHarness_C09_ValidateMethods() {
 	lookup := method.NewIndex[generatedMethod]()
-	// two declared methods that both carry field settings on a non-struct target
-	for _, gm := range []*generatedMethod{verifGenMethod("ConvertA", "A", "B", true), verifGenMethod("ConvertB", "C", "D", true)} {
+	// declared methods that all carry field settings on a non-struct target; their signature strings are
+	// arbitrary (one symbolic byte each for source and target), pairwise different
+	s1, t1 := verifName1("source1"), verifName1("target1")
+	s2, t2 := verifName1("source2"), verifName1("target2")
+	s3, t3 := verifName1("source3"), verifName1("target3")
+	verifAssume(s1 != s2 || t1 != t2)
+	verifAssume(s1 != s3 || t1 != t3)
+	verifAssume(s2 != s3 || t2 != t3)
+	for _, gm := range []*generatedMethod{verifGenMethod("ConvertA", s1, t1, true), verifGenMethod("ConvertB", s2, t2, true), verifGenMethod("ConvertC", s3, t3, true)} {
 		_, err := lookup.Register(gm, gm.Definition)
 		verifAssert("registered", err == nil)
 	}
